@@ -213,7 +213,8 @@ def props_deadline_end(E, res):
 
 
 def build(tier):
-    return [Obligation('miner.Deadline::process_deadline_end[partitions=%d]' % n, run_deadline_end(n), props_deadline_end,
+    from . import miner_formulas
+    return miner_formulas.build_qa(tier) + [Obligation('miner.Deadline::process_deadline_end[partitions=%d]' % n, run_deadline_end(n), props_deadline_end,
                        descr='closing a deadline records a missed proof for exactly the partitions that were not proven (and are not already entirely faulty), once each; power removed / penalised / newly faulty are the sums over those partitions',
                        bounds='%d partitions; partition contents symbolic; CUTS: Partition::record_missed_post (result contract), add_expiration_partitions' % n, max_paths=100000)
             for n in ([1, 2] if tier == 'quick' else [1, 2, 3])] + [Obligation('power.update_claimed_power', run_update, props_update,
